@@ -24,6 +24,42 @@ COMPONENTS_STUB = [
 ]
 
 
+def describe(sc):
+    """A scenario written out the way a person would read it."""
+    from . import msel
+
+    out = []
+    if "threads" in sc:
+        for t, th in enumerate(sc["threads"]):
+            pr = th.get("probe")
+            sel = [msel.render(x) for x in pr["sels"]] if pr else None
+            out.append(f"thread {t}: " + (f"{pr['kind']} {sel}; " if pr else "no probe; ")
+                       + "; ".join(f"call {c['fn']} tape={c.get('tape')}" for c in th["calls"]))
+        out.append(f"schedule: {sc['sched']}")
+        return out
+    if sc.get("program"):
+        out.append(f"generated program with functions {[f['name'] for f in sc['program'].get('functions', [])]}")
+    for op in sc.get("ops", []):
+        k = op["op"]
+        if k == "mk":
+            sels = [msel.render(x, style=op.get("style", 0)) for x in op["sels"]]
+            extra = "".join(f" {a}={op[a]}" for a in ("how", "ptype", "raw", "filtered") if op.get(a))
+            out.append(f"mk {op['id']}: {op.get('kind', 'probe')} {sels}{extra}")
+        elif k in ("call",) or k.startswith("gen_") or k == "gc":
+            tgt = op.get("fn") or op.get("gen") or ""
+            bits = [k, tgt]
+            if op.get("tape"):
+                bits.append(f"tape={op['tape']}")
+            if op.get("faults"):
+                bits.append(f"faults={op['faults']}")
+            if op.get("box"):
+                bits.append(f"box={op['box']}")
+            out.append(" ".join(str(b) for b in bits if b != ""))
+        else:
+            out.append(" ".join(f"{a}={v}" if a != "op" else str(v) for a, v in op.items()))
+    return out
+
+
 def _load_json(p):
     with open(p) as f:
         return json.load(f)
@@ -107,7 +143,8 @@ def run_check(prop, lens, args, seed, known, t0):
         if res["herr"]:
             herrs.append(f"run {idx}: {json.dumps(res['herr'][0], default=repr)[:1500]}")
         if len(samples) < 3 and res["events"]:
-            samples.append({"run": idx, "ops": res["scenario"]["ops"]})
+            samples.append({"run": idx, "history": describe(res["scenario"]),
+                            "events_delivered": res["events"], "trace_events": res["steps"]})
         if res["viol"] and not args.keep_going:
             first_bad[idx] = res
             return "stop"
